@@ -7,6 +7,7 @@ package main
 // makes 0.29*100 == 28.999999999999996, so the conversion must go through an explicit rounding function.
 
 import (
+	"go/constant"
 	"fmt"
 	"go/ast"
 	"go/token"
@@ -337,6 +338,36 @@ func checkC05(p *Prog, r *Result, tier string) {
 					}
 					for i, l := range as.Lhs {
 						if fn.objOf(l) == o && i < len(as.Rhs) && !fromPlan(as.Rhs[i]) && !isNilIdent(as.Rhs[i]) {
+							// keeping the origin's cores is consistent with the recorded amount exactly when the (validated) request
+							// handed to the planner asks for the same CPU amount as the origin: accepted under that very test
+							if sel, ok := unparen(as.Rhs[i]).(*ast.SelectorExpr); ok && sel.Sel.Name == "CPUMap" {
+								originObj := fn.objOf(sel.X)
+								sameAmount := false
+								fn.inspectBody(func(z ast.Node) bool {
+									is, ok := z.(*ast.IfStmt)
+									if !ok || !(is.Body.Pos() <= as.Pos() && as.End() <= is.Body.End()) {
+										return true
+									}
+									for _, cj := range splitOp(is.Cond, token.LAND) {
+										be, ok := unparen(cj).(*ast.BinaryExpr)
+										if !ok || be.Op != token.EQL {
+											continue
+										}
+										l, ok1 := unparen(be.X).(*ast.SelectorExpr)
+										rr, ok2 := unparen(be.Y).(*ast.SelectorExpr)
+										if ok1 && ok2 && l.Sel.Name == "CPURequest" && rr.Sel.Name == "CPURequest" {
+											lo, ro := fn.objOf(l.X), fn.objOf(rr.X)
+											if (lo == planned && ro == originObj) || (ro == planned && lo == originObj) {
+												sameAmount = true
+											}
+										}
+									}
+									return true
+								})
+								if sameAmount {
+									continue
+								}
+							}
 							why4 = "on some path the recorded core map is `" + exprStr(as.Rhs[i]) + "` (at " + p.pos(as) + "), not the core map of a plan the planner returned for the request whose amounts are recorded: the amount on record (after validation raised the request to the limit) and the pieces kept can differ"
 						}
 					}
@@ -476,7 +507,7 @@ func checkC31(p *Prog, r *Result, tier string) {
 	r.NotCovered = "what the Docker daemon does with the settings; IOPS options; that the resource plugin's parameters reach the engine unchanged (C10/C12 territory)"
 	r.Assumptions = []string{"IEEE-754 double arithmetic; math.Round", "A4 docker SDK field semantics (CPUQuota -1 = unrestricted, CpusetCpus comma list)"}
 	r.min("N1", 2)
-	r.min("FS", 4)
+	r.min("FS", 7)
 	r.min("FQ", 2)
 	r.min("FO", 3)
 	r.min("UA", 2)
@@ -576,6 +607,53 @@ func checkC31(p *Prog, r *Result, tier string) {
 	}
 	srcIs("Memory", memP, "the memory limit parameter")
 	srcIs("MemorySwap", memP, "the memory limit parameter")
+	// the memory caps are set for EVERY parameter set: the assignments are plain statements of the function body, not under a
+	// condition on the value (a cap that is left at 0 means "unchanged" to the engine on update: the old limit stays)
+	for _, field := range []string{"Memory", "MemorySwap"} {
+		key := M.Name + " / " + field + " is set whatever the value is"
+		top := false
+		for _, st := range M.Body.List {
+			if a, ok := st.(*ast.AssignStmt); ok {
+				for _, l := range a.Lhs {
+					if sel, ok := unparen(l).(*ast.SelectorExpr); ok && M.objOf(sel.X) == resObj && sel.Sel.Name == field {
+						top = true
+					}
+				}
+			}
+		}
+		r.check(top, "FS", key, p.pos(M.Decl), "unconditional statement of makeResourceSetting", field+" is only assigned under a condition: for the parameter sets that fail it (a limit of 0, or the update path's stand-in for 'unlimited') the field stays 0, which the engine reads as 'leave unchanged' on update — the previous cap keeps being enforced")
+	}
+	// update path: a memory limit of 0 is replaced by a positive stand-in for "unlimited" before the translation
+	if U := p.Fn("engine/docker.(*Engine).VirtualizationUpdateResource"); U != nil {
+		key := U.Name + " / a memory limit of 0 becomes an explicit non-zero 'unlimited' value on update"
+		why := "no `if memory == 0 { memory = <max> }` found"
+		U.inspectBody(func(n ast.Node) bool {
+			is, ok := n.(*ast.IfStmt)
+			if !ok {
+				return true
+			}
+			be, ok := unparen(is.Cond).(*ast.BinaryExpr)
+			if !ok || be.Op != token.EQL {
+				return true
+			}
+			if k, isC := U.constInt(be.Y); !isC || k != 0 {
+				return true
+			}
+			for _, st := range is.Body.List {
+				if a, ok := st.(*ast.AssignStmt); ok && len(a.Lhs) == 1 && len(a.Rhs) == 1 && U.objOf(a.Lhs[0]) == U.objOf(be.X) && strings.Contains(strings.ToLower(exprStr(be.X)), "mem") {
+					if tv, ok := U.Pkg.TypesInfo.Types[a.Rhs[0]]; ok && tv.Value != nil {
+						if v, exact := constant.Int64Val(constant.ToInt(tv.Value)); exact && v != 0 {
+							why = "" // a positive maximum or the engine's -1, either lifts the cap explicitly
+						} else {
+							why = "a memory limit of 0 is replaced by `" + exprStr(a.Rhs[0]) + "`, which is still 0: the engine reads 0 as 'leave unchanged' and the old cap stays"
+						}
+					}
+				}
+			}
+			return true
+		})
+		r.check2(why, "FS", key, p.pos(U.Decl), "if memory == 0 { memory = maxMemory }")
+	}
 	srcIs("CpusetMems", numaP, "the NUMA node parameter")
 	// CpusetCpus = strings.Join(ids, ",") where ids collects exactly the range keys of the core map
 	{
